@@ -25,12 +25,13 @@
    slices of a named numeric element type, float32 arrays holding a signalling NaN; a nil slice /
    map whose element / key builder does not answer Null; pointers to a value written as Null, to a
    slice, to a map, to a pointer to a container, to Media; types.Edge; everything held by an
-   interface (types.Node included; covered by the correspondence only); big.Float; float32 NaN
-   scalars; struct types with embedded fields or order= tags; and it requires that an omitted
+   interface (types.Node included; covered by the correspondence only); big.Float; struct types
+   with embedded fields or order= tags; and it requires that an omitted
    field holds a value [veq] to its zero value, that the emitted name of a kept field is answered
    by that field, map keys of a keyable scalar type, and that the url / time libraries give the
    value back. *)
 From CE Require Import Model.MarshalRT Proofs.MarshalRTProofs.
+From CE Require Model.Cbe Proofs.CbeProofs Proofs.CbeRoundtrip Proofs.RulesPassthrough.
 Open Scope N_scope.
 
 (* ---- the fragment ---- *)
@@ -63,6 +64,31 @@ Example C04_example_rebuilt :
                (cbe_events (iterate icfg0 (Some ex_value))) = TOk v'
              /\ veq ex_value v' = true /\ (40 < length (cbe_events (iterate icfg0 (Some ex_value))))%nat.
 Proof. exact ex_rebuilt. Qed.
+
+(* The same on the codec model itself (Model/Cbe.v): the document the CBE encoder writes for the
+   marshaler's events decodes to events [es]; the validator hands on [map nn es] (C15); the builder
+   returns an equal value.  [c01_simpleb]: the fragment of events on which Proofs/CbeRoundtrip.v
+   proves what the decoder reports (everything the marshaler emits except times); [iter_event]:
+   the events for which [cbe_form] is proved to be that report followed by [nn]. *)
+Theorem C04_marshal_unmarshal_codec_partial :
+  forall (url_conv time_conv : bytes -> option bytes) (dec_bigfloat bigdec_bigfloat : dfloat -> option bigfloat)
+         (cfg : bcfg) (ic : icfg) (dc : Cbe.dcfg) (t : gtype) (v : gval) (doc : bytes),
+    c_records ic = [] -> c_recursion ic = false ->
+    has_type t v = true -> sup url_conv time_conv cfg ic t v = true ->
+    forallb CbeRoundtrip.c01_simpleb (plain ic v) = true -> forallb iter_event (plain ic v) = true ->
+    Cbe.cbe_encode (iterate ic (Some v)) = Some doc -> Cbe.len doc <= Cbe.max_doc_size dc ->
+    exists es v',
+      Cbe.cbe_decode dc doc = (es, Cbe.DOk) /\
+      build_typed url_conv time_conv dec_bigfloat bigdec_bigfloat cfg t (map RulesPassthrough.nn es) = TOk v' /\ veq v v' = true.
+Proof. exact marshal_unmarshal_codec. Qed.
+Print Assumptions C04_marshal_unmarshal_codec_partial.
+
+(* ... whose hypotheses hold for the example without its time field. *)
+Example C04_example_codec :
+  has_type ex_type2 ex_value2 = true /\ sup idlib idlib default_bcfg icfg0 ex_type2 ex_value2 = true /\
+  forallb CbeRoundtrip.c01_simpleb (plain icfg0 ex_value2) = true /\ forallb iter_event (plain icfg0 ex_value2) = true /\
+  exists doc, Cbe.cbe_encode (iterate icfg0 (Some ex_value2)) = Some doc /\ Cbe.len doc <= Cbe.max_doc_size Cbe.default_dcfg.
+Proof. exact ex2_covered. Qed.
 
 (* ---- the full property, and its refutation ---- *)
 
